@@ -144,7 +144,7 @@ func c12rDrive(t *testing.T, id string, r *scenarioRun, frng *rand.Rand, faults 
 				if r.envStep() {
 					continue
 				}
-				if w.q.ReleaseDelayed() == 0 {
+				if w.q.ReleaseDue(10*time.Second) == 0 {
 					converged = true
 					break
 				}
